@@ -221,6 +221,11 @@ pub struct HookPathCase {
 	/// the command ignores the stop signal (so graceful variants run out of grace)
 	pub ignore: bool,
 	pub value: String,
+	/// the executable (a per-case copy of the helper) is open for writing when the job is first started and for
+	/// 150 ms after: that spawn fails with ETXTBSY ("text file busy"); whatever the supervisor does about it,
+	/// every process that does get spawned must see the hook's changes
+	#[serde(default)]
+	pub busy: bool,
 }
 
 fn run_hook_paths(c: &HookPathCase) -> Outcome {
@@ -229,9 +234,21 @@ fn run_hook_paths(c: &HookPathCase) -> Outcome {
 	o.nontrivial = c.ops.len() >= 2;
 	o.label(if c.ignore { "command-ignores-signal" } else { "command-exits-on-signal" });
 	let logs = super::c08::Logs::new("vh-c18h-");
+	let prog = if c.busy {
+		let copy = logs.dir.path().join("helper-copy");
+		if let Err(e) = std::fs::copy(helper_path(), &copy) {
+			o.fail("env:helper-copy", e.to_string());
+			return o;
+		}
+		o.label("executable-busy-at-first-start");
+		copy
+	} else {
+		helper_path()
+	};
+	let busy_prog = prog.clone();
 	let cmd = Command {
 		program: Program::Exec {
-			prog: helper_path(),
+			prog,
 			args: vec![
 				"run".into(),
 				"--log".into(),
@@ -263,7 +280,25 @@ fn run_hook_paths(c: &HookPathCase) -> Outcome {
 				starts(logs) >= n
 			}
 		};
-		job.start().await;
+		if c.busy {
+			let writer = std::fs::OpenOptions::new().write(true).open(&busy_prog).map_err(|e| format!("env: {e}"))?;
+			let holder = tokio::task::spawn_blocking(move || {
+				std::thread::sleep(Duration::from_millis(150));
+				drop(writer);
+			});
+			job.start().await;
+			let _ = holder.await;
+			tokio::time::sleep(Duration::from_millis(100)).await;
+			// nothing was spawned while the executable was busy (the failure went to the error handler): start again
+			if starts(&logs) == 0 {
+				tokio::time::sleep(Duration::from_millis(1200)).await;
+			}
+			if starts(&logs) == 0 {
+				job.start().await;
+			}
+		} else {
+			job.start().await;
+		}
 		if !wait_for(1).await {
 			return Err("first start not observed".into());
 		}
@@ -435,10 +470,10 @@ pub fn check(e: &Engine) {
 			threads: 16,
 			confirm: 1,
 			max_shrink_iters: 20,
-			rule: "real processes: a job with an env-setting spawn hook goes through 1-4 of restart / try_restart / restart_with_signal / try_restart_with_signal with a command that exits on or ignores the stop signal (grace 120 ms); every spawned process must see the hook's environment",
+			rule: "real processes: a job with an env-setting spawn hook goes through 1-4 of restart / try_restart / restart_with_signal / try_restart_with_signal with a command that exits on or ignores the stop signal (grace 120 ms); every spawned process must see the hook's environment; in a quarter of the cases the executable (a per-case copy) is open for writing at the first start (ETXTBSY), and whatever is spawned afterwards must still see it",
 			confirm_any: &[],
 		},
-		&|| (proptest::collection::vec(0u8..4, 1..5), any::<bool>(), "[a-z ]{1,8}").prop_map(|(ops, ignore, value)| HookPathCase { ops, ignore, value }).boxed(),
+		&|| (proptest::collection::vec(0u8..4, 1..5), any::<bool>(), "[a-z ]{1,8}", proptest::bool::weighted(0.25)).prop_map(|(ops, ignore, value, busy)| HookPathCase { ops, ignore, value, busy }).boxed(),
 		&run_hook_paths,
 	);
 	e.explore(
